@@ -20,6 +20,7 @@ import (
 	"encoding/json"
 	"flag"
 	"fmt"
+	"io"
 	"math"
 	"math/rand"
 	"os"
@@ -358,23 +359,58 @@ func run(sp Spec, forceChild bool) J {
 	return runSpec(sp)
 }
 
-func runChild(sp Spec) J {
-	in, _ := json.Marshal(sp)
-	cmd := exec.Command(os.Args[0], "-mode", "one")
-	cmd.Stdin = bytes.NewReader(in)
-	var so, se bytes.Buffer
-	cmd.Stdout, cmd.Stderr = &so, &se
-	err := cmd.Run()
-	if err == nil {
-		var out J
-		dec := json.NewDecoder(&so)
-		dec.UseNumber()
-		if dec.Decode(&out) == nil {
-			out["child"] = true
-			return out
-		}
+// worker: one long-lived child process that executes specs sent line by line (a new process per case is too slow for
+// the exhaustive tiers). If it dies, the case it was working on crashed the process; a new worker is started.
+type worker struct {
+	cmd *exec.Cmd
+	in  io.WriteCloser
+	out *bufio.Reader
+	err *bytes.Buffer
+}
+
+var theWorker *worker
+
+func startWorker() *worker {
+	cmd := exec.Command(os.Args[0], "-mode", "worker")
+	in, _ := cmd.StdinPipe()
+	outp, _ := cmd.StdoutPipe()
+	w := &worker{cmd: cmd, in: in, out: bufio.NewReaderSize(outp, 1<<20), err: &bytes.Buffer{}}
+	cmd.Stderr = w.err
+	if err := cmd.Start(); err != nil {
+		return nil
 	}
-	// the child died: describe the case in this process without executing it
+	return w
+}
+
+func runChild(sp Spec) J {
+	if theWorker == nil {
+		theWorker = startWorker()
+	}
+	if theWorker != nil {
+		b, _ := json.Marshal(sp)
+		_, werr := theWorker.in.Write(append(b, '\n'))
+		if werr == nil {
+			line, rerr := theWorker.out.ReadBytes('\n')
+			if rerr == nil {
+				var out J
+				dec := json.NewDecoder(bytes.NewReader(line))
+				dec.UseNumber()
+				if dec.Decode(&out) == nil {
+					out["child"] = true
+					return out
+				}
+			}
+		}
+		// the worker died on this case
+		theWorker.in.Close()
+		theWorker.cmd.Wait()
+	}
+	msg := ""
+	if theWorker != nil {
+		msg = theWorker.err.String()
+	}
+	theWorker = nil
+	// describe the case in this process without executing it
 	out := J{"query": sp.Query, "cfg": J{"chan": sp.ChanSize, "bulk": sp.BulkSize, "procs": sp.Procs}, "graph_texts": sp.Graphs, "child": true}
 	ctx := context.Background()
 	_, dump, _ := buildStore(ctx, sp.Graphs)
@@ -382,7 +418,6 @@ func runChild(sp Spec) J {
 	if stm, _ := parse(sp.Query); stm != nil {
 		describe(out, stm)
 	}
-	msg := se.String()
 	site := ""
 	for _, l := range strings.Split(msg, "\n") {
 		if strings.Contains(l, "badwolf/bql/planner.") || strings.Contains(l, "badwolf/bql/table.") {
@@ -396,6 +431,29 @@ func runChild(sp Spec) J {
 	}
 	out["result"] = J{"kind": kind, "site": site, "goroutine": true}
 	return out
+}
+
+func stopWorker() {
+	if theWorker != nil {
+		theWorker.in.Close()
+		theWorker.cmd.Wait()
+		theWorker = nil
+	}
+}
+
+func workerLoop() {
+	sc := bufio.NewScanner(os.Stdin)
+	sc.Buffer(make([]byte, 1<<20), 1<<26)
+	w := bufio.NewWriter(os.Stdout)
+	for sc.Scan() {
+		var sp Spec
+		if err := json.Unmarshal(sc.Bytes(), &sp); err != nil {
+			fmt.Fprintln(os.Stderr, "bad spec:", err)
+			os.Exit(2)
+		}
+		emit(w, runSpec(sp))
+		w.Flush()
+	}
 }
 
 // ---------------------------------------------------------------- store probe (F6)
@@ -447,7 +505,10 @@ func main() {
 	flag.Parse()
 	w := bufio.NewWriterSize(os.Stdout, 1<<20)
 	defer w.Flush()
+	defer stopWorker()
 	switch *mode {
+	case "worker":
+		workerLoop()
 	case "one":
 		var sp Spec
 		if err := json.NewDecoder(os.Stdin).Decode(&sp); err != nil {
